@@ -66,6 +66,7 @@ let parse_access (toks : string list) : access =
         | "c" :: r when not flex -> (BTyped, r)
         | "c" :: n :: r -> (BContig (zs n), r)
         | "v" :: c :: b :: s :: r -> (BVector (zs c, zs b, zs s), r)
+        | "r" :: c :: b :: s :: r -> (BVector (zs c, zs b, zs s), r)   (* same typemap: count x resized(contiguous(b), extent s) *)
         | "n" :: r -> (BNull, r)
         | _ -> raise (Parse "buf") in
       let parse_nd rest k =
